@@ -574,8 +574,18 @@ fn judge_mesh(o: &MeshObs, vi: usize, stats: &mut Stats, out: &mut Vec<Violation
             &[vi],
         )),
         OpResult::Panic(msg) => out.push(Violation::new("panic", "Mesh::get_patch_boundary_points", msg.clone(), &[vi])),
-        OpResult::Done(Err(_)) => {
+        OpResult::Done(Err(e)) => {
             stats.bump("patch-boundary:returned-err");
+            if !pinched && !repeated {
+                // a consistently wound mesh without vertex-only contacts has a unique successor
+                // at every boundary vertex: nothing for the operation to refuse
+                out.push(Violation::new(
+                    "unexpected-error",
+                    "Mesh::get_patch_boundary_points",
+                    format!("Err({}) on a consistently wound mesh without vertex-only contacts", e),
+                    &[vi],
+                ));
+            }
         }
         OpResult::Done(Ok(lines)) => {
             let index: BTreeMap<[u64; 3], u32> = m
